@@ -44,6 +44,9 @@
 mod injector;
 mod pool_manager;
 
+#[cfg(nexosim_verif)]
+pub use injector::verif::VInjector;
+
 use std::cell::Cell;
 use std::fmt;
 use std::future::Future;
